@@ -146,6 +146,7 @@ class EqScn:
                 cyc.append(cyc)
                 del c, cyc
                 w.gc_mask = instrument.select(GC_PRED)
+                w.gc_proc = S.proc  # the garbage lives in the initiator: its threads trigger the collector
             w.exploring = bool(P.get("explore"))
             try:
                 script(P["prog"], gw, T, P["size"])
